@@ -1,6 +1,6 @@
 (** C03 -- wire codec lossless, matches the SCION format, never truncates silently:
     property theorems only. *)
-From Sci Require Import Wire.Codec Wire.Spec_C03 Wire.Proofs_C03 Wire.BitFieldProofs Wire.ChecksumProofs Wire.RoundTripProofs Wire.ChecksumVerify Wire.LengthProofs Wire.SpecAgreeProofs Wire.EncodeLengthProofs Wire.AddrRoundTrip Wire.HeaderRoundTrip Wire.PacketRoundTrip Wire.StdPathRoundTrip Wire.PacketRoundTripStd Wire.ScmpRoundTrip Wire.PacketRoundTripAll.
+From Sci Require Import Wire.Codec Wire.Spec_C03 Wire.Proofs_C03 Wire.BitFieldProofs Wire.ChecksumProofs Wire.RoundTripProofs Wire.ChecksumVerify Wire.LengthProofs Wire.SpecAgreeProofs Wire.EncodeLengthProofs Wire.AddrRoundTrip Wire.HeaderRoundTrip Wire.PacketRoundTrip Wire.StdPathRoundTrip Wire.PacketRoundTripStd Wire.ScmpRoundTrip Wire.PacketRoundTripAll Wire.SpecDecodeAgree Wire.EncodeOk.
 Local Open Scope N_scope.
 
 (** A model that cannot be represented on the wire is rejected: whenever the encoder's gate
@@ -215,18 +215,24 @@ Proof.
 Qed.
 Print Assumptions length_fields_truthful.
 
-(** The independent reader agrees with the implementation's accessors on EVERY byte string,
-    field by field: the right-hand sides are literally the expressions of [Spec_C03]
-    (spec_header, spec_std, spec_info, spec_hop, spec_udp: byte offsets from the SCION header
-    specification, div / mod), the left-hand sides the model of the view accessors driven by the
-    generated bit-range tables.  A change of a bit range in the Rust tables breaks this proof.
-    Together with the per-layer round trips: the independent reader reads back from the
-    encoder's bytes the model that was encoded, layer by layer.
-    PARTIAL with respect to [spec_decode (encode m) = Some m] for whole packets: the layers are
-    not composed (offsets of address header / path / fields inside the header buffer, host
-    addresses, SCMP); composition is decided by the correspondence check. *)
-Theorem spec_decode_agrees_partial :
-  (forall b, bytes_ok b = true -> CommonHeader_SIZE_BYTES <= blen b ->
+(** The independent STRICT reader of [Spec_C03] (literal byte offsets from the SCION header
+    specification, div / mod; imports no generated table) and the model of the implementation's
+    decoder agree on WHOLE PACKETS, for EVERY byte string and every packet kind (raw / UDP /
+    SCMP, all ten SCMP kinds), every address kind and every path kind (empty / one-hop /
+    standard / unsupported):
+    (1) whatever bytes the strict reader accepts, the decoder accepts as well, consumes all of
+        them and returns the SAME model -- header layout recomputed from the bytes, address
+        header, hosts, path with its info / hop field loops and segment split, payload, L4 header;
+    (2) hence on bytes that both accept, the two models are equal and the decoder leaves no rest;
+    (3) field by field on every byte string: the right-hand sides are literally the expressions of
+        [Spec_C03], the left-hand sides the view accessors driven by the generated bit-range tables.
+    A change of a bit range, an offset or a size in the Rust tables breaks this proof. *)
+Theorem spec_decode_agrees :
+  (forall (kind : N) (b : bytes) (m : packet),
+     bytes_ok b = true -> spec_decode kind b = Some m -> decode_packet kind b = Ok (m, []))
+  /\ (forall (kind : N) (b : bytes) (m m' : packet) (rest : bytes),
+        bytes_ok b = true -> decode_packet kind b = Ok (m, rest) -> spec_decode kind b = Some m' -> m' = m /\ rest = [])
+  /\ ((forall b, bytes_ok b = true -> CommonHeader_SIZE_BYTES <= blen b ->
      let b0 := be b 0 1 in let b1 := be b 1 1 in
      hv_version b = Ok (b0 / 16) /\ hv_traffic_class b = Ok ((b0 mod 16) * 16 + b1 / 16)
      /\ hv_flow_id b = Ok ((b1 mod 16) * 65536 + be b 2 2) /\ hv_next_header b = Ok (be b 4 1)
@@ -245,11 +251,40 @@ Theorem spec_decode_agrees_partial :
      hf_flags v = Ok (be v 0 1) /\ hf_exp_time v = Ok (be v 1 1) /\ hf_cons_ingress v = Ok (be v 2 2)
      /\ hf_cons_egress v = Ok (be v 4 2) /\ hf_mac v = Ok (sl v 6 6))
   /\ (forall v, bytes_ok v = true -> UdpDatagram_HEADER_SIZE_BYTES <= blen v ->
-     udp_src_port v = Ok (be v 0 2) /\ udp_dst_port v = Ok (be v 2 2) /\ udp_length v = Ok (be v 4 2) /\ udp_checksum v = Ok (be v 6 2)).
+     udp_src_port v = Ok (be v 0 2) /\ udp_dst_port v = Ok (be v 2 2) /\ udp_length v = Ok (be v 4 2) /\ udp_checksum v = Ok (be v 6 2))).
 Proof.
-  refine (conj spec_common_agrees (conj spec_meta_agrees (conj spec_info_agrees (conj spec_hop_agrees spec_udp_agrees)))).
+  refine (conj spec_decode_dec (conj _ (conj spec_common_agrees (conj spec_meta_agrees (conj spec_info_agrees (conj spec_hop_agrees spec_udp_agrees)))))).
+  intros kind b m m' rest Hok Hd Hs. rewrite (spec_decode_dec kind b m' Hok Hs) in Hd. inversion Hd. split; reflexivity.
 Qed.
-Print Assumptions spec_decode_agrees_partial.
+Print Assumptions spec_decode_agrees.
+
+(** The strict reader applied to the ENCODER's output can only read back the encoded model: for
+    every accepted Rust-typed packet model (every address, path and payload kind), every element of
+    the encoder's output is a byte, and if [spec_decode] accepts that output then the model it
+    returns is exactly the encoded one ([canon] = identity except the documented cut of an SCMP
+    error quote).  Composition of [decode_encode] with [spec_decode_agrees] over the whole packet.
+    PARTIAL with respect to [spec_decode kind (encode m) = Some (canon m)]: the missing step is that
+    the strict reader ACCEPTS the encoder's output, i.e. that the fields the decoder does not look
+    at read back as the strict reader demands -- common-header / path-meta / info-field reserved
+    bits and SCMP reserved fields zero, service-address padding zero, next-header number matching
+    the payload kind.  That step is evaluated on the implementation's bytes by the check (oracle
+    [o_spec] of Cases_C03 on every encoder case, incl. the kind x path matrix). *)
+Theorem spec_decode_encode_partial :
+  forall (p : packet) (al_host al : bool),
+    model_wf p = true -> packet_wire_valid p = true ->
+    let kind := match p_pl p with PL_Raw _ => 0 | PL_Udp _ _ _ => 1 | PL_Scmp _ => 2 end in
+    let b := encode_packet_al p al_host al in
+    bytes_ok b = true
+    /\ forall m', spec_decode kind b = Some m' -> m' = canon p (header_size (p_hdr p)).
+Proof.
+  intros p alh al W V kind b.
+  pose proof (encode_packet_ok p alh al W V) as Hok. fold b in Hok. split; [exact Hok|].
+  intros m' Hs.
+  pose proof (spec_decode_dec kind b m' Hok Hs) as D.
+  pose proof (packet_roundtrip_full p alh al W V) as R. cbv zeta in R. fold kind b in R.
+  rewrite R in D. inversion D. reflexivity.
+Qed.
+Print Assumptions spec_decode_encode_partial.
 
 (** Every packet model the encoder accepts -- every address kind, empty / one-hop / standard
     (1..3 segments, 1..63 hops each) / unsupported path, raw / UDP / all ten SCMP payload
